@@ -916,6 +916,25 @@ Proof.
   destruct (run_ops checked cfg1 (init t) ops2) as [[c2 s2] ds]; reflexivity.
 Qed.
 
+(** ... and such a call comes within [check_every] calls (current value) when no setter intervenes. *)
+Lemma reset_within_check_every_ops_model checked cfg t0 ops1 h2 R :
+  let cfg1 := config_after cfg ops1 in
+  reset_after cfg1 = Some R -> check_every cfg1 <> usize_max ->
+  h2 <> [] -> check_every cfg1 <= N.of_nat (length h2) ->
+  Forall (fun e => R <= snd e - win_start (state_after_ops checked cfg t0 ops1)) h2 ->
+  exists p a t s, h2 = p ++ (a, t) :: s /\
+    state_after_ops checked cfg t0 (ops1 ++ map reg_of (p ++ [(a, t)])) = init t /\
+    decisions_ops checked cfg t0 (ops1 ++ map reg_of (p ++ [(a, t)]))
+    = decisions_ops checked cfg t0 ops1 ++ repeat (Ok Passed) (S (length p)) /\
+    (p = [] \/ N.of_nat (length p) < check_every cfg1).
+Proof.
+  intros cfg1 HR Hne Hnil Hlen Hall. unfold state_after_ops, decisions_ops in *.
+  destruct (reset_within checked cfg1 R HR Hne h2 (snd (fst (run_ops checked cfg (init t0) ops1))) Hnil ltac:(lia) Hall)
+    as (p & a & t & s & Hsplit & Hrun & Hp).
+  exists p, a, t, s. split; [exact Hsplit|]. rewrite run_ops_app. fold cfg1. rewrite run_ops_constant, Hrun. cbn [fst snd].
+  split; [reflexivity|]. split; [reflexivity|]. destruct Hp as [Hp|Hp]; [left; exact Hp|right; lia].
+Qed.
+
 (** [iteration.fetch_add(1) + 1] cannot overflow whatever the setters do. *)
 Lemma register_iter_lt checked cfg st a t :
   check_every cfg <= usize_max -> iteration st < usize_max -> iteration (fst (register checked cfg st a t)) < usize_max.
